@@ -63,7 +63,7 @@ PROPS = {
     ),
     'C08': dict(
         level='proof',
-        projections=[dict(name='mercagg', n_quick=1600, n_thorough=30000)],
+        projections=[dict(name='mercagg', n_quick=1600, n_thorough=30000), dict(name='mercreport', spec_index=4, n_quick=200, n_thorough=3000)],
         rule='mercagg: every vote table / order type of n<=4 (thorough 5) observations over {1,2,3,invalid} for each of the nine '
              'consensus functions (f=1), then structured random cases f in 1..3, 2f+1..3f+1 observations, honest values near a base, '
              'faulty values 0, +-2^k, -1.., invalid flags, forked/invented blocks, deprecated current-block fields; every case also run on a '
